@@ -228,6 +228,9 @@ ITEM_KINDS = {
     "val=leading-zero": ("LZER", "", "007", "leading zero"),
     "val=float17": ("F17", "M", "0.30000000000000004", "17 digits"),
     "val=exp": ("EXPO", "", "1E-3", "exponent"),
+    # floats whose str() uses an exponent, with a long unit so that the item tends to be the widest of its section
+    "val=tiny-float-unit": ("CFTINY", "1/PSI-LONGUNIT", "3.2E-06", "compressibility"),
+    "val=huge-float-unit": ("SRCBIG", "N/S-LONGUNIT", "2.5E+17", "source strength"),
     "val=comma-decimal": ("COMD", "", "1,5", "comma decimal"),
     "val=dotted-text": ("DOTT", "", "St. John No. 1", "dots in left field"),
     "val=int-unit": ("INTU", "MM", "200", "int with unit"),
